@@ -50,13 +50,13 @@ def draw_structure(rng, *, strategies=("filter",), calibs=sk.CALIBS, lins=("ts0"
 
 
 @st.composite
-def values(draw, cfg, *, hmin=1e-3, hmax=0.5, scale_decades=2.0):
+def values(draw, cfg, *, hmin=1e-3, hmax=0.5, scale_decades=2.0, force_h=False):
     field = sk.make_field(cfg)
     n, d = cfg["n"], cfg["d"]
     # "tighter ranges at the highest orders": keeps most cases inside float64's reach
-    if n >= 5:
+    if n >= 5 and not force_h:
         hmin = max(hmin, 1e-2)
-    if n >= 7:
+    if n >= 7 and not force_h:
         hmin = max(hmin, 3e-2)
     tc_mode = draw(st.sampled_from(["consistent", "consistent", "arbitrary"]))
     C = draw(gen.mat(d, field.M, gen.quarter(-4, 4)))
